@@ -2408,8 +2408,9 @@ class sptensor:
                     # positions themselves
                     entry = list(range(*entry.indices(extent)))  # noqa: PLW2901
                     if len(entry) == 0:
-                        # An empty region: nothing is assigned
-                        return None
+                        # An empty region of this mode (handled like any other
+                        # empty slice: nothing is assigned there)
+                        entry = slice(0, 0)  # noqa: PLW2901
                 elif isinstance(entry, slice) and extent is not None:
                     start, stop = entry.start, entry.stop
                     if start is not None and start < 0:
